@@ -123,7 +123,9 @@ def _chunk(args):
     faulthandler.enable()
     _pin()
     prop = load_prop(pid)
+    known = load_known()
     agg = {
+        "suppressed": collections.Counter(),
         "n": 0, "digests": set(), "nontrivial": 0, "probes": collections.Counter(), "faults": collections.Counter(),
         "sim_time": 0.0, "steps": 0, "samples": [], "viol": [], "errors": [], "nt_digests": set(), "scenarios": 0,
     }
@@ -157,11 +159,15 @@ def _chunk(args):
         agg["steps"] += out.steps
         if len(agg["samples"]) < 2 and (out.nontrivial or (out.digests and any(nt for _, nt in out.digests))):
             agg["samples"].append({"scenario": sc, "observed": out.info})
-        if out.viol and len(agg["viol"]) < 6:
+        if out.viol:
             wsc = out.witness or sc
             wsc.setdefault("seed", seed)
             wsc.setdefault("index", i)
-            agg["viol"].append({"scenario": wsc, "viol": out.viol})
+            k = known_match(prop, known, wsc, out.viol[0][0], out.viol[0][1])
+            if k is not None:
+                agg["suppressed"][k["id"]] += 1  # a listed finding: counted, never crowds out other violations
+            elif len(agg["viol"]) < 6:
+                agg["viol"].append({"scenario": wsc, "viol": out.viol})
     return agg
 
 
@@ -347,6 +353,7 @@ def check(pid, tier="quick", runs=None, procs=None, vseed=None, budget=None):
         "n": 0, "digests": set(), "nt_digests": set(), "nontrivial": 0, "probes": collections.Counter(), "faults": collections.Counter(),
         "sim_time": 0.0, "steps": 0, "samples": [], "viol": [], "errors": [], "scenarios": 0,
     }
+    suppressed = collections.Counter()
     ctx = multiprocessing.get_context("fork")
     harness_error = None
     with cf.ProcessPoolExecutor(max_workers=procs, mp_context=ctx) as ex:
@@ -366,6 +373,7 @@ def check(pid, tier="quick", runs=None, procs=None, vseed=None, budget=None):
                 if len(total["samples"]) < 3:
                     total["samples"].extend(a["samples"][: 3 - len(total["samples"])])
                 total["viol"].extend(a["viol"])
+                suppressed.update(a["suppressed"])
                 total["errors"].extend(a["errors"])
         except (cf.TimeoutError, cf.process.BrokenProcessPool) as e:
             harness_error = "worker pool failed: %r" % (e,)
@@ -401,7 +409,6 @@ def check(pid, tier="quick", runs=None, procs=None, vseed=None, budget=None):
 
     # ---- violations
     reported = []
-    suppressed = collections.Counter()
     seen_rules = collections.Counter()
     total["viol"].sort(key=lambda v: (v["scenario"].get("index", 0)))
     for v in total["viol"]:
